@@ -200,3 +200,29 @@ pub trait SseRead {
                 || (n <= delivered_form(ev).len() && final(buf).raw() == delivered_form(ev).take(n as int) && final(self).waiting() == delivered_form(ev).skip(n as int)))))),
     ;
 }
+
+// ---- the blocking form (impl std::io::Read for EventReceiver; not used by the server).  Rule S1 stand-ins: `Read` -> the one-method
+// trait below, `self.0.recv()` -> recv_block(&mut self.0) (blocks until an event arrives or every sender is gone: its answer is
+// the uninterpreted last_recv)
+pub uninterp spec fn last_recv<T>(q: Receiver<T>) -> Result<T, RecvError>;
+#[verifier::external_body]
+pub fn recv_block<T>(q: &mut Receiver<T>) -> (r: Result<T, RecvError>)
+    ensures r == last_recv(*final(q))
+{ unimplemented!() }
+pub trait SseBlockingRead {
+    spec fn received(&self) -> Result<Event, RecvError>;
+    spec fn waiting_b(&self) -> Seq<u8>;
+    fn read(&mut self, buf: &mut SliceSink) -> (r: Result<usize, std::io::Error>)
+        requires old(buf).out() =~= Seq::<char>::empty(), old(buf).frame() > 0
+        ensures
+            r is Ok,
+            // a waiting rest goes first, without asking the queue; otherwise 0 bytes exactly when every sender is gone, and a received
+            // event is delivered whole or as its first bytes with the rest left waiting
+            c11(old(self).waiting_b().len() > 0 ==> (r->Ok_0 > 0 && r->Ok_0 <= old(self).waiting_b().len()
+                && final(buf).raw() == old(self).waiting_b().take(r->Ok_0 as int) && final(self).waiting_b() == old(self).waiting_b().skip(r->Ok_0 as int))),
+            c11(old(self).waiting_b().len() == 0 ==> (r->Ok_0 == 0 <==> final(self).received() is Err)),
+            c11(old(self).waiting_b().len() == 0 ==> (final(self).received() matches Ok(ev) ==> (
+                ((final(buf).out() == enc(ev) || final(buf).out() == enc(ev) + lf()) && r->Ok_0 == utf8_len(final(buf).out()) && final(self).waiting_b().len() == 0)
+                || (r->Ok_0 <= delivered_form(ev).len() && final(buf).raw() == delivered_form(ev).take(r->Ok_0 as int) && final(self).waiting_b() == delivered_form(ev).skip(r->Ok_0 as int))))),
+    ;
+}
